@@ -183,14 +183,18 @@ Blend(old, cur, rev) ==  \* one individual's entry
 PartialOK(rec) == rec.fork # NONE /\ \A k \in DOMAIN rec.fork : (rec.fork[k] # NONE /\ rec.vals[k] # NONE) => k \in IndAxis
 
 RevertPartial(o, mask) ==  \* mask: [Inds -> BOOLEAN], TRUE = revert that individual
-   /\ Live(o) /\ PartialOK(obj[o])
-   /\ LET f == obj[o].fork  v == obj[o].vals IN
-      obj' = [obj EXCEPT ![o].fork = NONE,
-                         ![o].vals = [k \in Nodes |->
-                             IF k \notin DOMAIN f THEN v[k]
-                             ELSE IF f[k] = NONE \/ v[k] = NONE THEN NONE
-                             ELSE <<"i", [i \in Inds |-> Blend(f[k][2][i], v[k][2][i], mask[i])]>>]]
-   /\ err' = "-" /\ last' = <<"RevertPartial", o, NoNode>> /\ args' = <<mask>>
+   /\ Live(o)
+   /\ IF obj[o].fork = NONE
+        THEN /\ err' = "no_fork" /\ UNCHANGED obj            \* nothing to revert from: refused, as for the full revert
+        ELSE /\ PartialOK(obj[o])
+             /\ LET f == obj[o].fork  v == obj[o].vals IN
+                obj' = [obj EXCEPT ![o].fork = NONE,
+                                   ![o].vals = [k \in Nodes |->
+                                       IF k \notin DOMAIN f THEN v[k]
+                                       ELSE IF f[k] = NONE \/ v[k] = NONE THEN NONE
+                                       ELSE <<"i", [i \in Inds |-> Blend(f[k][2][i], v[k][2][i], mask[i])]>>]]
+             /\ err' = "-"
+   /\ last' = <<"RevertPartial", o, NoNode>> /\ args' = <<mask>>
 
 Clone(src, dst, disable, keep) ==
    /\ Live(src) /\ dst # src
@@ -247,7 +251,7 @@ RevertFullExact == [][ \A o \in Objs : (last'[1] = "RevertFull" /\ last'[2] = o 
                        => (obj'[o].vals = Override(obj[o].vals, obj[o].fork) /\ obj'[o].fork = NONE) ]_vars
 
 \* C02: a per-individual revert gives, entry by entry, the old value where reverted and the current one elsewhere
-PartialRevertExact == [][ \A o \in Objs : (last'[1] = "RevertPartial" /\ last'[2] = o) =>
+PartialRevertExact == [][ \A o \in Objs : (last'[1] = "RevertPartial" /\ last'[2] = o /\ err' = "-") =>
      \E mask \in [Inds -> BOOLEAN] : \A k \in DOMAIN obj[o].fork :
         IF obj[o].fork[k] = NONE \/ obj[o].vals[k] = NONE THEN obj'[o].vals[k] = NONE
         ELSE \A i \in Inds :
